@@ -308,3 +308,8 @@ impl FromStr for Chunker {
         }
     }
 }
+
+// verification hook (guard: cfg(kani), set only by the Kani compiler): harnesses live in /verif/kani
+#[cfg(kani)]
+#[path = "/verif/kani/configfile.rs"]
+mod verif_kani;
